@@ -46,7 +46,15 @@ char *
 nni_strdup(const char *src)
 {
 	char  *dst;
-	size_t len = strlen(src) + 1;
+	size_t len;
+#if defined(URL_STR_CAP) && (URL_STR_CAP < 127)
+	/* size-capped units: inputs shorter than the 128-byte inline buffer
+	 * never reach the heap path; proving that here lets symex drop the
+	 * symbolic-size heap object (it made the array encoding explode). */
+	__CPROVER_assert(0, "nni_strdup unreachable for inputs shorter than the inline buffer");
+	__CPROVER_assume(0);
+#endif
+	len = strlen(src) + 1;
 
 	if ((dst = nni_alloc(len)) != NULL) {
 		memcpy(dst, src, len);
